@@ -84,7 +84,7 @@ func runR154(c *core.Ctx) {
 				return true
 			}
 			nn := namedOf(inf.Types[cl].Type)
-			if nn == nil || nn.Obj().Pkg() == nil || nn.Obj().Pkg().Path() != "net/url" || nn.Obj().Name() != "URL" {
+			if nn == nil || nn.Obj().Pkg() == nil || nn.Obj().Pkg().Path() != "net/url" || core.NameOf(nn.Obj()) != "URL" {
 				return true
 			}
 			n++
@@ -626,7 +626,7 @@ func runR025(c *core.Ctx) {
 					}
 				}
 				reads++
-				c.Bad(rel, enclosingFuncName(file, y.Pos()), fmt.Sprintf("no read of URL.%s #%d", fv.Name(), reads), y.Pos(),
+				c.Bad(rel, enclosingFuncName(file, y.Pos()), fmt.Sprintf("no read of URL.%s #%d", core.NameOf(fv), reads), y.Pos(),
 					"reads "+core.ExprString(y)+": the decoded path reaches routing / key decoding instead of EscapedPath()")
 			}
 			return true
@@ -653,7 +653,7 @@ func init() {
 		Title: "the resolver's URL is copied, never written through",
 		Text: "In formatQueryUrl and newRequest no assignment stores through a *url.URL (field store or *p = …): the base is cleared on a local struct copy (base := *hostUrl). " +
 			"Resolvers hand out the same pointer on every call, so a store through it strips the context path from every later request (and races with concurrent ones).",
-		Props: []string{"C15", "C17"},
+		Props: []string{"C15", "C17", "C02"},
 		Floor: map[string]int{"v2": 1, "root": 1},
 		Run:   runR156,
 	})
@@ -789,13 +789,13 @@ func runR155(c *core.Ctx) {
 			return true
 		}
 		n++
-		desc := fmt.Sprintf("root match #%d (strings.%s) looks at the last segment of a normalised path", n, f.Name())
-		switch f.Name() {
+		desc := fmt.Sprintf("root match #%d (strings.%s) looks at the last segment of a normalised path", n, core.NameOf(f))
+		switch core.NameOf(f) {
 		case "LastIndex", "HasSuffix", "TrimSuffix":
 			c.Check(normalised(call.Args[0], 0, call.Pos()), rel, "(*Client).formatQueryUrl", desc, call.Pos(), "subject derives from TrimSuffix(…, \"/\")",
 				"the subject "+core.ExprString(call.Args[0])+" still carries the resolver's trailing slash when the root name is matched: a base ending in /"+"<root>/ keeps its root segment and the request has it twice")
 		default:
-			c.Bad(rel, "(*Client).formatQueryUrl", desc, call.Pos(), "strings."+f.Name()+" does not anchor the match at the last segment: an earlier segment sharing the root's prefix (/searcher/search) hides the final one")
+			c.Bad(rel, "(*Client).formatQueryUrl", desc, call.Pos(), "strings."+core.NameOf(f)+" does not anchor the match at the last segment: an earlier segment sharing the root's prefix (/searcher/search) hides the final one")
 		}
 		return true
 	})
@@ -841,7 +841,7 @@ func runR156(c *core.Ctx) {
 					continue
 				}
 				if pt, ok := inf.Types[through].Type.(*types.Pointer); ok {
-					if nn := namedOf(pt.Elem()); nn != nil && nn.Obj().Pkg() != nil && nn.Obj().Pkg().Path() == "net/url" && nn.Obj().Name() == "URL" {
+					if nn := namedOf(pt.Elem()); nn != nil && nn.Obj().Pkg() != nil && nn.Obj().Pkg().Path() == "net/url" && core.NameOf(nn.Obj()) == "URL" {
 						// a pointer this function created itself (url.Parse result, &local) is its own
 						if o := core.ObjOf(inf, through); o != nil && ownedURL(inf, fd, o) {
 							continue
@@ -955,7 +955,7 @@ func pooledEscapes(fset interface {
 			if len(y.Results) == 0 {
 				for o := range st.results {
 					if st.aliases[o] {
-						report(y.Pos(), "returns the named result "+o.Name()+", which aliases an object handed back to the pool")
+						report(y.Pos(), "returns the named result "+core.NameOf(o)+", which aliases an object handed back to the pool")
 					}
 				}
 			}
@@ -1148,23 +1148,23 @@ func runR178(c *core.Ctx) {
 							if _, isIdent := core.Unparen(l).(*ast.Ident); !isIdent {
 								// a store through a captured pointer/map/slice: shared unless the base is request-local
 								if v := captured(l); v != nil && storeThroughReference(inf, l) {
-									problems = append(problems, c.M.Position(l.Pos())+": stores into "+core.ExprString(l)+" through the captured "+v.Name())
+									problems = append(problems, c.M.Position(l.Pos())+": stores into "+core.ExprString(l)+" through the captured "+core.NameOf(v))
 								}
 								continue
 							}
 							if v := captured(l); v != nil {
-								problems = append(problems, c.M.Position(l.Pos())+": assigns the captured variable "+v.Name()+" (one instance for every request)")
+								problems = append(problems, c.M.Position(l.Pos())+": assigns the captured variable "+core.NameOf(v)+" (one instance for every request)")
 							}
 						}
 					case *ast.IncDecStmt:
 						if v := captured(z.X); v != nil {
-							problems = append(problems, c.M.Position(z.Pos())+": increments the captured variable "+v.Name())
+							problems = append(problems, c.M.Position(z.Pos())+": increments the captured variable "+core.NameOf(v))
 						}
 					case *ast.UnaryExpr:
 						if z.Op == token.AND {
 							if _, isLit := core.Unparen(z.X).(*ast.CompositeLit); !isLit {
 								if v := captured(z.X); v != nil {
-									problems = append(problems, c.M.Position(z.Pos())+": takes the address of the captured variable "+v.Name())
+									problems = append(problems, c.M.Position(z.Pos())+": takes the address of the captured variable "+core.NameOf(v))
 								}
 							}
 						}
@@ -1326,8 +1326,8 @@ func runR067(c *core.Ctx) {
 					return st
 				},
 			})
-			c.Check(calls > 0 && bad == 0, rel, "("+rt+")."+m, "the element callback runs with "+flag.Name()+" == false", md.Pos(), fmt.Sprintf("%d callback evaluations", calls),
-				fmt.Sprintf("%d of %d evaluations of the callback are reachable without %s having been set to false: nested records report missing fields on their own", bad, calls, flag.Name()))
+			c.Check(calls > 0 && bad == 0, rel, "("+rt+")."+m, "the element callback runs with "+core.NameOf(flag)+" == false", md.Pos(), fmt.Sprintf("%d callback evaluations", calls),
+				fmt.Sprintf("%d of %d evaluations of the callback are reachable without %s having been set to false: nested records report missing fields on their own", bad, calls, core.NameOf(flag)))
 		}
 	}
 	if n < 3 {
@@ -1529,11 +1529,12 @@ func init() {
 	core.Register(&core.Rule{
 		ID:    "R17.9",
 		Title: "pooled objects are reset on the way in or on the way out",
-		Text: "For every sync.Pool in the module: each value taken with Get is re-initialised before any other use (a Reset/Truncate call or a whole-value assignment right after the Get), or each Put is immediately preceded by such a reset of the same object. " +
+		Text: "For every sync.Pool in the module: each value taken with Get is completely re-initialised by the statements right after the Get and / or by the statements right before every Put of that pool anywhere in the package: " +
+			"a Reset/Truncate/Clear call, clear(x), x = x[:0], a delete-all loop, a whole-value assignment, or assignments (directly or through a method of the object) that together cover every field of the pooled struct, embedded structs field by field. " +
 			"A deferred Put also runs on error and panic exits, where a writer still holds the fragment of a failed serialization; the next request then starts from that fragment. " +
 			"In addition, when an alias of the pooled object was handed to another function, nothing may run after a non-deferred Put (the callee may have retained it: routing slices stored in the request context). " +
 			"A synthetic positive control must be recognised on every run.",
-		Props: []string{"C17", "C09", "C03", "C08", "C01", "C05"},
+		Props: []string{"C17", "C09", "C03", "C08", "C01", "C05", "C04", "C06", "C07", "C11", "C15", "C02", "C14", "C16"},
 		Floor: map[string]int{"v2": 1, "root": 1},
 		Run:   runR179,
 	})
@@ -1554,7 +1555,7 @@ func runR087(c *core.Ctx) {
 				return true
 			}
 			f := core.Callee(inf, call)
-			if f == nil || !strings.HasSuffix(f.Name(), "f") {
+			if f == nil || !strings.HasSuffix(core.NameOf(f), "f") {
 				return true
 			}
 			sig, ok := f.Type().(*types.Signature)
@@ -1573,7 +1574,7 @@ func runR087(c *core.Ctx) {
 			// a printf-like wrapper forwarding its own format parameter is checked at its call sites
 			if pv, ok := core.ObjOf(inf, call.Args[fi]).(*types.Var); ok {
 				if efd := enclosingFuncDecl(file, call.Pos()); efd != nil {
-					if ef, ok := inf.Defs[efd.Name].(*types.Func); ok && strings.HasSuffix(ef.Name(), "f") {
+					if ef, ok := inf.Defs[efd.Name].(*types.Func); ok && strings.HasSuffix(core.NameOf(ef), "f") {
 						es := ef.Type().(*types.Signature)
 						if es.Variadic() && es.Params().Len() >= 2 && es.Params().At(es.Params().Len()-2) == pv {
 							// … provided the wrapper forwards it as received: a format extended with run-time text
@@ -1594,14 +1595,14 @@ func runR087(c *core.Ctx) {
 								}
 								return true
 							})
-							c.Check(len(rewritten) == 0, rel, fn, fmt.Sprintf("format string of %s #%d is the wrapper's own format parameter", f.Name(), ordinalIn(file, call)), call.Pos(), "",
+							c.Check(len(rewritten) == 0, rel, fn, fmt.Sprintf("format string of %s #%d is the wrapper's own format parameter", core.NameOf(f), ordinalIn(file, call)), call.Pos(), "",
 								"the wrapper rewrites its format parameter at "+strings.Join(rewritten, ", ")+" before forwarding it: run-time text becomes part of the format and a % in it is interpreted as a verb")
 							return true
 						}
 					}
 				}
 			}
-			c.Check(core.ConstOf(inf, call.Args[fi]) != nil, rel, fn, fmt.Sprintf("format string of %s #%d is a constant", f.Name(), ordinalIn(file, call)), call.Pos(), "",
+			c.Check(core.ConstOf(inf, call.Args[fi]) != nil, rel, fn, fmt.Sprintf("format string of %s #%d is a constant", core.NameOf(f), ordinalIn(file, call)), call.Pos(), "",
 				"the format argument "+core.ExprString(call.Args[fi])+" is built at run time: a % in the embedded text is interpreted as a verb and the message is altered")
 			return true
 		})
@@ -1681,33 +1682,297 @@ func keysOf(m map[string]bool) []string {
 
 // pooledHygiene reports Get sites not followed by a reset (unless every Put is preceded by one) and code running
 // after a non-deferred Put when an alias was handed out.
-func pooledHygiene(fset interface {
-	Position(token.Pos) token.Position
-}, m *core.Module, inf *types.Info, body *ast.BlockStmt) (sites int, problems []string) {
-	isReset := func(st ast.Stmt, o types.Object) bool {
-		switch y := st.(type) {
+// poolCoverage describes how much of a pooled object a run of consecutive statements re-initialises.
+type poolCoverage struct {
+	full   bool
+	fields map[string]bool // field paths ("lexer", "missingFieldsTracker.currentScope")
+}
+
+func (a poolCoverage) union(b poolCoverage) poolCoverage {
+	out := poolCoverage{full: a.full || b.full, fields: map[string]bool{}}
+	for k := range a.fields {
+		out.fields[k] = true
+	}
+	for k := range b.fields {
+		out.fields[k] = true
+	}
+	return out
+}
+
+func (a poolCoverage) intersect(b poolCoverage) poolCoverage {
+	out := poolCoverage{full: a.full && b.full, fields: map[string]bool{}}
+	if a.full {
+		for k := range b.fields {
+			out.fields[k] = true
+		}
+		return out
+	}
+	if b.full {
+		for k := range a.fields {
+			out.fields[k] = true
+		}
+		return out
+	}
+	for k := range a.fields {
+		if b.fields[k] {
+			out.fields[k] = true
+		}
+	}
+	return out
+}
+
+// complete: every field of the pooled struct (struct-valued fields of the module: every field of theirs) is covered.
+func (a poolCoverage) complete(m *core.Module, t types.Type) (bool, string) {
+	if a.full {
+		return true, ""
+	}
+	if p, ok := t.(*types.Pointer); ok {
+		t = p.Elem()
+	}
+	st, ok := t.Underlying().(*types.Struct)
+	if !ok {
+		return false, "the value is not re-initialised"
+	}
+	var missing func(prefix string, st *types.Struct, depth int) string
+	missing = func(prefix string, st *types.Struct, depth int) string {
+		for i := 0; i < st.NumFields(); i++ {
+			f := st.Field(i)
+			path := prefix + core.NameOf(f)
+			if a.fields[path] {
+				continue
+			}
+			if inner, ok := f.Type().Underlying().(*types.Struct); ok && depth < 3 {
+				if nn := namedOf(f.Type()); nn == nil || m == nil || m.InModule(nn.Obj().Pkg()) {
+					if w := missing(path+".", inner, depth+1); w != "" {
+						return w
+					}
+					continue
+				}
+			}
+			return path
+		}
+		return ""
+	}
+	if w := missing("", st, 0); w != "" {
+		return false, "field " + w + " keeps the value of the previous use"
+	}
+	return true, ""
+}
+
+// poolResetRun computes what the consecutive statements list[from], list[from+step], … re-initialise of object o; the run
+// ends at the first statement that is not part of a re-initialisation of o.
+func poolResetRun(m *core.Module, inf *types.Info, list []ast.Stmt, from, step int, o types.Object) poolCoverage {
+	cov := poolCoverage{fields: map[string]bool{}}
+	// path of a selector chain rooted at o ("" for o itself), ok=false when e is not rooted at o
+	var pathOf func(e ast.Expr) (string, bool)
+	pathOf = func(e ast.Expr) (string, bool) {
+		switch x := core.Unparen(e).(type) {
+		case *ast.Ident:
+			return "", core.ObjOf(inf, x) == o
+		case *ast.StarExpr:
+			return pathOf(x.X)
+		case *ast.SelectorExpr:
+			if fv, ok := core.ObjOf(inf, x).(*types.Var); ok && fv.IsField() {
+				if p, ok := pathOf(x.X); ok {
+					// promoted fields: spell the embedded path out
+					if sel := inf.Selections[x]; sel != nil && len(sel.Index()) > 1 {
+						t := inf.Types[x.X].Type
+						for _, i := range sel.Index()[:len(sel.Index())-1] {
+							if pt, ok := t.(*types.Pointer); ok {
+								t = pt.Elem()
+							}
+							st, ok := t.Underlying().(*types.Struct)
+							if !ok {
+								break
+							}
+							if p != "" {
+								p += "."
+							}
+							p += core.NameOf(st.Field(i))
+							t = st.Field(i).Type()
+						}
+					}
+					if p != "" {
+						p += "."
+					}
+					return p + core.NameOf(fv), true
+				}
+			}
+		}
+		return "", false
+	}
+	// what a method of the module assigns through its receiver (one level; calls on the receiver followed once)
+	var viaMethod func(f *types.Func, prefix string, depth int)
+	viaMethod = func(f *types.Func, prefix string, depth int) {
+		if m == nil || f == nil || depth > 2 {
+			return
+		}
+		fd := m.Decl(f.Origin())
+		if fd == nil || fd.Body == nil || fd.Recv == nil || len(fd.Recv.List) != 1 || len(fd.Recv.List[0].Names) != 1 {
+			return
+		}
+		minf := m.InfoFor(fd.Pos())
+		if minf == nil {
+			return
+		}
+		recv := minf.Defs[fd.Recv.List[0].Names[0]]
+		for _, st := range fd.Body.List {
+			sub := poolResetRun(m, minf, []ast.Stmt{st}, 0, 1, recv)
+			if sub.full {
+				if prefix == "" {
+					cov.full = true
+				} else {
+					cov.fields[strings.TrimSuffix(prefix, ".")] = true
+				}
+			}
+			for k := range sub.fields {
+				cov.fields[prefix+k] = true
+			}
+		}
+	}
+	for i := from; i >= 0 && i < len(list); i += step {
+		progressed := false
+		switch y := list[i].(type) {
 		case *ast.ExprStmt:
-			if call, ok := core.Unparen(y.X).(*ast.CallExpr); ok {
-				if sel, ok := core.Unparen(call.Fun).(*ast.SelectorExpr); ok && core.ObjOf(inf, sel.X) == o {
-					switch sel.Sel.Name {
-					case "Reset", "Truncate", "Clear":
-						return true
+			call, ok := core.Unparen(y.X).(*ast.CallExpr)
+			if !ok {
+				break
+			}
+			if b, ok := core.ObjOf(inf, call.Fun).(*types.Builtin); ok && b.Name() == "clear" && len(call.Args) == 1 {
+				if p, ok := pathOf(call.Args[0]); ok {
+					if p == "" {
+						cov.full = true
+					} else {
+						cov.fields[p] = true
+					}
+					progressed = true
+				}
+				break
+			}
+			if sel, ok := core.Unparen(call.Fun).(*ast.SelectorExpr); ok {
+				if p, ok := pathOf(sel.X); ok {
+					f := core.Callee(inf, call)
+					switch {
+					case sel.Sel.Name == "Reset" || sel.Sel.Name == "Truncate" || sel.Sel.Name == "Clear":
+						if f != nil && (m == nil || !m.InModule(f.Pkg())) || f == nil {
+							if p == "" {
+								cov.full = true
+							} else {
+								cov.fields[p] = true
+							}
+							progressed = true
+							break
+						}
+						fallthrough
+					default:
+						if f != nil && m != nil && m.InModule(f.Pkg()) {
+							before := len(cov.fields)
+							wasFull := cov.full
+							pre := p
+							if pre != "" {
+								pre += "."
+							}
+							viaMethod(f, pre, 0)
+							progressed = len(cov.fields) > before || cov.full != wasFull
+						}
 					}
 				}
 			}
 		case *ast.AssignStmt:
-			for _, l := range y.Lhs {
-				if st, ok := core.Unparen(l).(*ast.StarExpr); ok && core.ObjOf(inf, st.X) == o {
-					return true
+			for j, l := range y.Lhs {
+				if p, ok := pathOf(l); ok {
+					_, isStar := core.Unparen(l).(*ast.StarExpr)
+					switch {
+					case p == "" && isStar:
+						cov.full = true
+						progressed = true
+					case p == "":
+						// o = o[:0] (a pooled slice)
+						if len(y.Lhs) == len(y.Rhs) {
+							if se, ok := core.Unparen(y.Rhs[j]).(*ast.SliceExpr); ok && se.Low == nil && se.High != nil {
+								if cv := core.ConstOf(inf, se.High); cv != nil && cv.ExactString() == "0" {
+									cov.full = true
+									progressed = true
+								}
+							}
+						}
+					default:
+						cov.fields[p] = true
+						progressed = true
+					}
+				}
+			}
+		case *ast.RangeStmt:
+			// for k := range o { delete(o, k) }
+			if p, ok := pathOf(y.X); ok && len(y.Body.List) == 1 {
+				if es, ok := y.Body.List[0].(*ast.ExprStmt); ok {
+					if call, ok := core.Unparen(es.X).(*ast.CallExpr); ok {
+						if b, ok := core.ObjOf(inf, call.Fun).(*types.Builtin); ok && b.Name() == "delete" {
+							if p == "" {
+								cov.full = true
+							} else {
+								cov.fields[p] = true
+							}
+							progressed = true
+						}
+					}
 				}
 			}
 		}
-		return false
+		if !progressed {
+			break
+		}
 	}
+	return cov
+}
+
+// poolPutCoverage: per pool, what every Put of the package re-initialises right before it (nil entry: some Put resets nothing).
+func poolPutCoverage(m *core.Module, inf *types.Info, bodies []*ast.BlockStmt) map[types.Object]*poolCoverage {
+	out := map[types.Object]*poolCoverage{}
+	for _, body := range bodies {
+		par := core.Parents(body)
+		ast.Inspect(body, func(x ast.Node) bool {
+			call, ok := x.(*ast.CallExpr)
+			if !ok || len(call.Args) != 1 {
+				return true
+			}
+			if f := core.Callee(inf, call); f == nil || !core.IsMethod(f, "sync", "Pool", "Put") {
+				return true
+			}
+			sel, ok := core.Unparen(call.Fun).(*ast.SelectorExpr)
+			if !ok {
+				return true
+			}
+			pool := rootIdentObj(inf, sel.X)
+			if fv, ok := core.ObjOf(inf, sel.X).(*types.Var); ok {
+				pool = fv
+			}
+			st := core.EnclosingStmt(par, call)
+			list, idx := core.StmtListOf(par, st)
+			cov := poolCoverage{fields: map[string]bool{}}
+			if o := core.ObjOf(inf, call.Args[0]); o != nil && idx > 0 {
+				cov = poolResetRun(m, inf, list, idx-1, -1, o)
+			}
+			if prev, ok := out[pool]; ok {
+				c2 := prev.intersect(cov)
+				out[pool] = &c2
+			} else {
+				out[pool] = &cov
+			}
+			return true
+		})
+	}
+	return out
+}
+
+func pooledHygiene(fset interface {
+	Position(token.Pos) token.Position
+}, m *core.Module, inf *types.Info, body *ast.BlockStmt, putCov map[types.Object]*poolCoverage) (sites int, problems []string) {
 	par := core.Parents(body)
 	type getSite struct {
 		o    types.Object
 		stmt ast.Stmt
+		pool types.Object
 	}
 	var gets []getSite
 	type putSite struct {
@@ -1729,10 +1994,17 @@ func pooledHygiene(fset interface {
 		switch {
 		case core.IsMethod(f, "sync", "Pool", "Get"):
 			st := core.EnclosingStmt(par, call)
+			var pool types.Object
+			if sel, ok := core.Unparen(call.Fun).(*ast.SelectorExpr); ok {
+				pool = rootIdentObj(inf, sel.X)
+				if fv, ok := core.ObjOf(inf, sel.X).(*types.Var); ok {
+					pool = fv
+				}
+			}
 			if as, ok := st.(*ast.AssignStmt); ok && len(as.Lhs) >= 1 {
-				gets = append(gets, getSite{core.ObjOf(inf, as.Lhs[0]), st})
+				gets = append(gets, getSite{core.ObjOf(inf, as.Lhs[0]), st, pool})
 			} else {
-				gets = append(gets, getSite{nil, st})
+				gets = append(gets, getSite{nil, st, pool})
 			}
 		case core.IsMethod(f, "sync", "Pool", "Put") && len(call.Args) == 1:
 			st := core.EnclosingStmt(par, call)
@@ -1760,19 +2032,26 @@ func pooledHygiene(fset interface {
 		pp := fset.Position(p)
 		return fmt.Sprintf("%s:%d", shortFile(pp.Filename), pp.Line)
 	}
-	// (a) reset on the way in, or (b) reset right before every Put
-	resetOnPut := len(puts) > 0
-	for _, p := range puts {
-		list, idx := core.StmtListOf(par, p.stmt)
-		if p.o == nil || idx <= 0 || !isReset(list[idx-1], p.o) {
-			resetOnPut = false
-		}
-	}
+	// (a) re-initialised on the way in, (b) right before every Put of the pool (anywhere in the package), or both together
 	for _, g := range gets {
 		list, idx := core.StmtListOf(par, g.stmt)
-		okIn := g.o != nil && idx >= 0 && idx+1 < len(list) && isReset(list[idx+1], g.o)
-		if !okIn && !resetOnPut {
-			problems = append(problems, pos(g.stmt.Pos())+": the object taken from the pool is used without being reset first, and not every Put is preceded by a reset: a fragment left by an earlier failed use is carried into this one")
+		cov := poolCoverage{fields: map[string]bool{}}
+		if g.o != nil && idx >= 0 {
+			cov = poolResetRun(m, inf, list, idx+1, 1, g.o)
+		}
+		if pc := putCov[g.pool]; pc != nil {
+			cov = cov.union(*pc)
+		}
+		var t types.Type
+		if g.o != nil {
+			t = g.o.Type()
+		}
+		ok, why := false, "the value is not bound to a variable"
+		if t != nil {
+			ok, why = cov.complete(m, t)
+		}
+		if !ok {
+			problems = append(problems, pos(g.stmt.Pos())+": the object taken from the pool is used without being completely re-initialised on the way in or on the way out ("+why+"): what an earlier (possibly failed) use left behind is carried into this one")
 		}
 	}
 	// (c) nothing runs after a non-deferred Put once an alias was handed to another function
@@ -1843,6 +2122,21 @@ func pooledHygiene(fset interface {
 
 func runR179(c *core.Ctx) {
 	funcs, sites := 0, 0
+	putCov := map[string]map[types.Object]*poolCoverage{}
+	for _, p := range c.M.Roots {
+		var bodies []*ast.BlockStmt
+		for _, file := range p.Syntax {
+			if strings.HasSuffix(c.M.Fset.File(file.Pos()).Name(), "_test.go") {
+				continue
+			}
+			for _, d := range file.Decls {
+				if fd, ok := d.(*ast.FuncDecl); ok && fd.Body != nil {
+					bodies = append(bodies, fd.Body)
+				}
+			}
+		}
+		putCov[p.PkgPath] = poolPutCoverage(c.M, p.TypesInfo, bodies)
+	}
 	for _, p := range c.M.Roots {
 		inf := p.TypesInfo
 		rel := c.M.Rel(p.PkgPath)
@@ -1856,7 +2150,7 @@ func runR179(c *core.Ctx) {
 					continue
 				}
 				funcs++
-				n, problems := pooledHygiene(c.M.Fset, c.M, inf, fd.Body)
+				n, problems := pooledHygiene(c.M.Fset, c.M, inf, fd.Body, putCov[p.PkgPath])
 				sites += n
 				if n > 0 {
 					c.Check(len(problems) == 0, rel, core.DeclName(fd), "pooled objects are reset before reuse and not used after Put", fd.Pos(), fmt.Sprintf("%d Get/Put sites", n), strings.Join(dedupe(problems), "; "))
@@ -1911,9 +2205,16 @@ func use(dst *[][]byte) int { return len(*dst) }`
 		return
 	}
 	got := map[string]int{}
+	var ctlBodies []*ast.BlockStmt
+	for _, d := range f.Decls {
+		if fd, ok := d.(*ast.FuncDecl); ok && fd.Body != nil && fd.Name.Name != "dirty" {
+			ctlBodies = append(ctlBodies, fd.Body)
+		}
+	}
+	ctlPut := poolPutCoverage(nil, inf, ctlBodies)
 	for _, d := range f.Decls {
 		if fd, ok := d.(*ast.FuncDecl); ok && fd.Body != nil {
-			_, problems := pooledHygiene(c.M.Fset, c.M, inf, fd.Body)
+			_, problems := pooledHygiene(c.M.Fset, c.M, inf, fd.Body, ctlPut)
 			got[fd.Name.Name] = len(problems)
 		}
 	}
@@ -1935,7 +2236,7 @@ func init() {
 		ID:    "R20.5",
 		Title: "the cleaner sees the target as given and removes the manifest at every level",
 		Text: "In the cleaner (CleanTargetDir and the package functions on a call cycle with it) (a) no directory parameter is reassigned before it reaches the `!= \".\"` guards: a normalised path (filepath.Abs/Clean) is never equal to \".\" and the current directory would be removed once cleaning leaves it empty; " +
-			"(b) every call that hands a directory entry (join(dir, entry.Name()), under entry.IsDir()) to a function or closure of the cleaner goes to one that removes the manifest file of the directory it is given: " +
+			"(b) every call that hands a directory entry (join(dir, core.NameOf(entry)), under entry.IsDir()) to a function or closure of the cleaner goes to one that removes the manifest file of the directory it is given: " +
 			"a manifest below the top level otherwise survives cleaning and keeps its directory chain alive.",
 		Props: []string{"C20"},
 		Floor: map[string]int{"v2": 2, "root": 2},
@@ -2062,7 +2363,7 @@ func runR157(c *core.Ctx) {
 		}
 		_, isMap := fv.Type().Underlying().(*types.Map)
 		if isMap || isSyncType(fv.Type()) {
-			problems = append(problems, c.M.Position(sel.Pos())+": consults the client's "+fv.Name()+" ("+fv.Type().String()+")")
+			problems = append(problems, c.M.Position(sel.Pos())+": consults the client's "+core.NameOf(fv)+" ("+fv.Type().String()+")")
 		}
 		return true
 	})
@@ -2319,7 +2620,7 @@ func (st *aliasState) callResults(call *ast.CallExpr) map[int]bool {
 				}
 			}
 		}
-		if len(aliasArgs) > 0 && f.Pkg() != nil && viewConstructors[f.Pkg().Name()+"."+f.Name()] {
+		if len(aliasArgs) > 0 && f.Pkg() != nil && viewConstructors[f.Pkg().Name()+"."+core.NameOf(f)] {
 			out[0] = true
 		}
 		if f.Pkg() == nil || types.IsInterface(recvTypeOf(f)) {
@@ -2564,7 +2865,7 @@ func runR0710(c *core.Ctx) {
 				if !skipsOperators(target.Body) {
 					bad++
 					c.Bad(rel, core.DeclName(cur.fd), fmt.Sprintf("descent #%d re-enters a function that skips $set / $delete", n), call.Pos(),
-						"the tail of the path is handed to "+f.Name()+", which never compares the head with the operator constants: nothing below an operator nested deeper than the first segment is matched")
+						"the tail of the path is handed to "+core.NameOf(f)+", which never compares the head with the operator constants: nothing below an operator nested deeper than the first segment is matched")
 				}
 			}
 			return true
@@ -2644,7 +2945,7 @@ func runR018(c *core.Ctx) {
 						}
 						walk(ix)
 						if direct {
-							problems = append(problems, core.ExprString(base)+" is indexed with the rune offset "+key.Name())
+							problems = append(problems, core.ExprString(base)+" is indexed with the rune offset "+core.NameOf(key))
 						}
 					}
 					return true
@@ -2677,7 +2978,7 @@ func runR127(c *core.Ctx) {
 				if f == nil || f.Pkg() == nil {
 					return true
 				}
-				isSort := (f.Pkg().Path() == "sort" && (core.NameOf(f) == "Slice" || core.NameOf(f) == "SliceStable")) || (f.Pkg().Path() == "slices" && strings.HasPrefix(f.Name(), "Sort"))
+				isSort := (f.Pkg().Path() == "sort" && (core.NameOf(f) == "Slice" || core.NameOf(f) == "SliceStable")) || (f.Pkg().Path() == "slices" && strings.HasPrefix(core.NameOf(f), "Sort"))
 				if !isSort || len(call.Args) < 2 {
 					return true
 				}
@@ -2724,7 +3025,7 @@ func runR127(c *core.Ctx) {
 						problems = append(problems, "returns "+v.ExactString()+" under "+core.ExprString(ifs.Cond)+" and then compares other keys without excluding the opposite case")
 					}
 				}
-				c.Check(len(problems) == 0, rel, enclosingFuncName(file, call.Pos()), fmt.Sprintf("comparator of %s #%d is a strict weak ordering by shape", f.Name(), ordinalIn(file, call)), call.Pos(), "",
+				c.Check(len(problems) == 0, rel, enclosingFuncName(file, call.Pos()), fmt.Sprintf("comparator of %s #%d is a strict weak ordering by shape", core.NameOf(f), ordinalIn(file, call)), call.Pos(), "",
 					strings.Join(problems, "; ")+": not a strict weak ordering, the sorted order depends on the input order")
 				return true
 			})
@@ -2817,7 +3118,7 @@ func runR145(c *core.Ctx) {
 				if f == nil || f.Pkg() == nil {
 					return true
 				}
-				switch f.Pkg().Path() + "." + f.Name() {
+				switch f.Pkg().Path() + "." + core.NameOf(f) {
 				case "io.Copy", "io.ReadAll", "io/ioutil.ReadAll":
 					reads++
 				case "io.LimitReader", "io.CopyN":
@@ -2828,7 +3129,7 @@ func runR145(c *core.Ctx) {
 					reads++
 				}
 			case *ast.CompositeLit:
-				if nn := namedOf(inf.Types[y].Type); nn != nil && nn.Obj().Pkg() != nil && nn.Obj().Pkg().Path() == "io" && nn.Obj().Name() == "LimitedReader" {
+				if nn := namedOf(inf.Types[y].Type); nn != nil && nn.Obj().Pkg() != nil && nn.Obj().Pkg().Path() == "io" && core.NameOf(nn.Obj()) == "LimitedReader" {
 					bad++
 					c.Bad(rel, enclosingFuncName(file, y.Pos()), fmt.Sprintf("no truncating reader #%d", bad), y.Pos(), "io.LimitedReader ends the stream with a clean EOF at its limit")
 				}
@@ -2888,8 +3189,8 @@ func runR168(c *core.Ctx) {
 							// initialises) is followed by break / return under the flag
 							okSite = leavesLoopAfter(inf, par, as, o)
 						}
-						c.Check(okSite, rel, core.DeclName(fd), fmt.Sprintf("flag %s assigned in a loop #%d is monotone", o.Name(), ordinal(fd, as)), as.Pos(), "",
-							o.Name()+" = "+core.ExprString(as.Rhs[i])+" on every iteration, and the loop goes on: a later element resets an earlier positive outcome")
+						c.Check(okSite, rel, core.DeclName(fd), fmt.Sprintf("flag %s assigned in a loop #%d is monotone", core.NameOf(o), ordinal(fd, as)), as.Pos(), "",
+							core.NameOf(o)+" = "+core.ExprString(as.Rhs[i])+" on every iteration, and the loop goes on: a later element resets an earlier positive outcome")
 					}
 					return true
 				})
